@@ -1,8 +1,8 @@
 NA = {}
 check('C17', 'model_checking',
       'Explicit-state exploration of the real Queue / UniformSamplingQueue / PmapWrapper / PjitWrapper objects: every operation sequence over {insert k, sample} up to the tier depth for capacity 1-5, batch 1-4, all modes, 2-4 shards, each transition compared with a list-based reference model; then BFS closure of the canonical state graph.',
-      'Trusts the 40-line reference model and data independence of the implementation (cross-checked by bisimulation on the full tree). Sampling an empty uniform queue is not enabled.',
-      'explicit-state DFS over all op sequences + BFS closure, real implementation stepped, reference-model oracle', 'DESIGN.md 4/C17')
+      'Trusts the 40-line reference model and data independence of the implementation (cross-checked by bisimulation on the full tree); tla/ReplayQueue.tla is a second, independent reference checked by TLC (invariants) and bound to the code by replaying every edge of its state graph. Sampling an empty uniform queue is not enabled.',
+      'explicit-state DFS over all op sequences + BFS closure on the real implementation with a reference-model oracle; TLC-explored TLA+ model whose full state graph is replayed edge by edge against the implementation', 'DESIGN.md 4/C17, 10')
 check('C15', 'model_checking',
       'Explicit-state exploration of the real training.wrap / EvalWrapper / generate_unroll / Evaluator on a scripted environment whose done answer the explorer owns: all done-patterns up to the tier depth expanded level-synchronously as members of one batch for L in 1..6, R in 1..3, every member compared with a per-member reference after every wrapped step, then BFS with canonical de-duplication to closure.',
       'Trusts the 50-line per-member reference; least-demanding reading of mid-repeat termination (done flag after the last sub-step). brax.v1 is stubbed so acting imports.',
